@@ -100,13 +100,21 @@ CLAIMS = {
  "C14": dict(
   category="proof",
   text=("Translation + Lean 4 proof: tools/xlate.py regenerates on every run the definitions table (96 games) and every dedicated module's parameters "
-        "(game_query_mod! invocations and the hand-written modules' default ports) as Lean data; theorems re-checked against it: for every game with a "
-        "module, port / protocol / engine ids / gathering settings agree (decide over the whole table); ids unique; every row within the translator's "
-        "grammar. For Valve games: if the rows agree, the generic, module and protocol-level paths are the same computation for every script and port "
-        "(equal logs and results up to game::Response::new_from_valve_response), and every event of the generic path carries the given port or the "
-        "definition's default. Tie + oracle: the three real call paths run under the same scripted servers for every Valve game of the table."),
-  note=TB + "translator validated by the differential; modules take no timeout argument (compared at retry 0); non-Valve rows: table theorems now, differential as their families land. Known finding: battalion1944 (module-only rule overrides).",
-  technique="source-to-Lean translation of the game tables + Lean 4 proof (decide over the table, path equality) + three-path differential"),
+        "(macro invocations, the hand-written modules' default ports, the Minecraft module functions) as Lean data; theorems re-checked against it: for "
+        "every game with a module, port / protocol tag / engine ids / gathering settings agree (decide over the whole table); ids unique; every row within "
+        "the translator's grammar and mapped to a modelled arm. Proto/Dispatch.lean is a statement-for-statement model of "
+        "query_with_timeout_and_extra_settings for EVERY non-tls arm (Valve with the extra-settings fallback, GameSpy 1/2/3, Quake 1/2/3, Unreal 2, "
+        "Savage 2, The Ship, FFOW, JC2M, Mindustry, Minecraft Java / Bedrock / legacy / auto, Eco) and of every kind of module. Proved for every row of "
+        "the generated table, every transport state, port given or omitted, any timeout / extra settings and any behaviour of the external decoders: "
+        "generic = the protocol's own query with the row's parameters (C14_dispatch_generic_eq_protocol); generic with no extra settings and default "
+        "timeouts = the module's query, derived from the table agreement, the two exclusions being the two recorded findings stated as model-level "
+        "witnesses (C14_dispatch_generic_eq_module, C14_dispatch_battalion, C14_dispatch_minecraft_auto_port_omitted); every logged open / send carries "
+        "the given port or the row's default, for all arms (C14_dispatch_destination_port); arms that hand the optional port on use a callee default equal "
+        "to the row's (C14_dispatch_own_default). Tie + oracle: `dispatch` / `dispatch-module` entries run the model and the real code for every game of "
+        "the table on valid, cut and mutated exchanges, port given and omitted, six retry / extra-settings combinations; the three real call paths are "
+        "compared with each other."),
+  note=TB + "translator validated by the differential; modules take no timeout argument (compared at retry 0); Eco's HTTP client is a parameter of the dispatch model (Ext.ecoFetch) and its arm is tied by the three real paths only; Epic and Minetest (tls feature) are outside the model. Known findings: battalion1944 (module-only rule overrides), Minecraft auto-detect with the port omitted (Bedrock probe port).",
+  technique="source-to-Lean translation of the game tables + Lean 4 proof (decide over the table; path equalities and destination port over the dispatch model) + model/implementation and three-path differential"),
  "C15": dict(
   category="proof",
   text=("Translation + Lean 4 proof: tools/xlate.py regenerates, on every run, the accessor table of every `impl CommonResponse/CommonPlayer for T` "
@@ -136,8 +144,9 @@ CLAIMS = {
         "u32 ids via a proved decimal render/parse inverse); insertion keeps one filter per kind, the later replacing the earlier, each method touching "
         "only its own group; (2) for EVERY well-formed history of reply pages (any number of pages) the paged query returns all listed addresses in "
         "order without the terminator, one request per page seeded with the last address of the previous page, and stops; a page in the protocol's "
-        "layout decodes to exactly its entries. Tie + oracle: insertion sequences (exhaustive to 3 in the thorough tier) and page histories on the real "
-        "code; sent requests parsed by the reference grammar and compared with an independently computed denotation."),
+        "layout decodes to exactly its entries, and whatever the decoder accepts is exactly a protocol page (C16_master_page_iff). Tie + oracle: insertion sequences (exhaustive to 3 in the thorough tier) and page histories on the real "
+        "code, including histories whose last page ends on its own seed instead of the terminator; sent requests parsed by the reference grammar and "
+        "compared with an independently computed denotation."),
   note=TB + "the reference grammar reader (Spec/Master.lean) is the specification and is trusted; pages are limited to 232 entries (the 1400-byte receive buffer).",
   technique="Lean 4 proof (tokenisation/grammar round trip; induction over page histories) + grammar-based request differential"),
  "C01": dict(
@@ -149,7 +158,7 @@ CLAIMS = {
         "a crash-freedom logic for parsers (Safe) and one for query computations (QSafe: log grows by permitted events, queues only "
         "shrink). Tie + search: valid, mutated, oversized (to 64 KiB) and garbage scripts run on the real entry points under a panic hook, "
         "an abort-surviving worker and an operation budget (hang detector), outcome and full transport trace compared with the model."),
-  note=TB + "entry families under a theorem are listed in the evidence (entry_families_under_theorem); families not yet modelled are not claimed here. Third-party decoders are parameters.",
+  note=TB + "entry families under a theorem are listed in the evidence (entry_families_under_theorem): every protocol, every game wrapper, the master-server service (C01_master_*: fuel sufficiency of the paging loop, rounds <= datagrams + 1) and the generic definition-driven dispatch for every row of the generated table (C01_dispatch_rows; the Eco arm under the hypothesis that the HTTP client itself does not panic). Third-party decoders are parameters. tls-only code (Epic, Minetest) is outside the model.",
   technique="Lean 4 proof (Safe/QSafe program logics, fuel-sufficiency by a queue-length measure) + hostile-input differential"),
  "C13": dict(
   category="proof",
@@ -172,9 +181,12 @@ CLAIMS = {
   text=("Lean 4 theorems: the A2S request bytes equal the specification's literals; for every script, every event the Valve query logs is on "
         "the one UDP socket it opened to the caller's port, every sent datagram is a protocol request optionally carrying a challenge, every "
         "receive uses the 6144-byte buffer; challenge echo as an equation for every challenge value (after a kind-0x41 reply with payload c the "
-        "next action is sending the same request with exactly c); a non-challenge reply ends the exchange. Tie + oracle: the implementation's "
-        "sent datagrams (port + bytes, in order) equal the SPEC request list on generated exchanges with stratified challenge values."),
-  note=TB + "per-game default ports (definitions table) are covered under C14; further protocols are added as their models land.",
+        "next action is sending the same request with exactly c); a non-challenge reply ends the exchange; per family (Props/C09_<family>.lean) the "
+        "request literals, socket / port invariant and, where the protocol has one, the challenge echo (GameSpy 3 for every i32, Minecraft Java "
+        "handshake framing); master server: the WHOLE log equals a closed form for every script (C09_master_log), every follow-up request is seeded with "
+        "the last address of the page just received, port 27011. Tie + oracle: the implementation's sent datagrams (port + bytes, in order) equal the "
+        "SPEC request list on generated exchanges with stratified challenge values; request settings on every VarInt group boundary."),
+  note=TB + "per-game default ports (definitions table) are covered under C14.",
   technique="Lean 4 proof (event invariant over all scripts + unfolding equation for the echo) + sent-log differential against SPEC"),
  "C08": dict(
   category="proof",
